@@ -91,3 +91,53 @@ def h_spline_knots(env, order, nalpha=2, spline_size=3):
                     lib.handlers.pop(k, None)
                 else:
                     lib.handlers[k] = v
+
+
+# ---------------------------------------------------------------------------------------------------------------------------------
+def h_contrib_layout(env, ifeat_ids=(0, 3, 6, 7), has_vj=False):
+    """ConvolutionCollection.__init__ (ciderpress/dft/lcao_convolutions.py) hands the C library one array of contribution ids; the
+    orbital-to-grid routines read the output columns in *blocked* order: n0 scalar columns, then the l-1 column of every vector
+    feature (column n0 + i feeds fill_l1_coeff for feature i), then the l+1 column of every vector feature (columns n0 + n1 + i,
+    `offset_orb = n0 + n1` in LCAOInterpolator.conv2spline).  Decided as facts on the real constructor: the array that reaches
+    generate_convolution_collection has that order for two vector features, and n0, n1, num_out agree with it."""
+    lc = env.m.lcao_convolutions
+    got = {}
+    if env.sym:
+        from . import common
+        lib = common.ctx().load_library("libmcider")
+        saved = {k: lib.handlers.get(k) for k in ("generate_convolution_collection",)}     # (the no-op destructor handler stays)
+
+        def gen(ccl, a_in, a_out, alphas, norms, ids, nalpha, nids, vj):
+            n = int(nids.value)
+            if isinstance(ids, ArrHandle):
+                got["ids"] = [int(v) for v in np.asarray(ids.arr).ravel()[:n]]
+            else:
+                got["ids"] = list((ctypes.c_int32 * n).from_address(ids.value)) if n else []
+        lib.handlers["generate_convolution_collection"] = gen
+        lib.handlers["free_convolution_collection"] = lambda *a: None
+        atco = type("A", (), {"atco_c_ptr": ctypes.c_void_p(0), "nao": 3})()
+        alphas, norms = np.array([0.5, 1.0]), np.array([1.0, 1.0])
+    else:
+        from . import c05
+        W = c05._real_world()
+        atco, alphas, norms = W["atco"], W["alphas"], (np.pi / (2 * W["alphas"])) ** -0.75
+    try:
+        ok, ccl = env.attempt("constructor_returns", lambda: lc.ConvolutionCollection(atco, atco, alphas, norms, has_vj=has_vj, ifeat_ids=list(ifeat_ids)))
+    finally:
+        if env.sym:
+            for k, v in saved.items():
+                if v is None:
+                    lib.handlers.pop(k, None)
+                else:
+                    lib.handlers[k] = v
+    if not ok:
+        return
+    ids = got.get("ids") if env.sym else [int(v) for v in ccl._icontrib_ids]
+    scal = [f for f in ifeat_ids if isinstance(lc.IFEAT_ID_TO_CONTRIB[f], int)]
+    vec = [f for f in ifeat_ids if not isinstance(lc.IFEAT_ID_TO_CONTRIB[f], int)]
+    n0, n1 = len(scal) + (len(alphas) if has_vj else 0), len(vec)
+    want = [lc.IFEAT_ID_TO_CONTRIB[f] for f in scal] + [lc.IFEAT_ID_TO_CONTRIB[f][0] for f in vec] + [lc.IFEAT_ID_TO_CONTRIB[f][1] for f in vec]
+    env.check("ids_reach_C_in_blocked_order", ids == want, "C receives %r, the interpolation routines assume %r" % (ids, want))
+    env.check("n0", ccl.n0 == n0, "%r vs %r" % (ccl.n0, n0))
+    env.check("n1", ccl.n1 == n1, "%r vs %r" % (ccl.n1, n1))
+    env.check("nbeta_is_n0_plus_2n1", ccl.nbeta == n0 + 2 * n1, "%r" % (ccl.nbeta,))
